@@ -107,14 +107,15 @@ func main() {
 	sc.Buffer(make([]byte, 1<<20), 1<<26)
 	type mm struct {
 		Patterns []string `json:"patterns"`
-		Leaked   []string `json:"leaked"`  // must be absent, still present
-		Lost     []string `json:"lost"`    // must be present, gone
+		Leaked   []string `json:"leaked"` // must be absent, still present
+		Lost     []string `json:"lost"`   // must be present, gone
 		Err      string   `json:"err,omitempty"`
 	}
 	var (
-		n    int
-		mism = []mm{}
-		samp []any
+		n      int
+		nscope int
+		mism   = []mm{}
+		samp   []any
 	)
 	for sc.Scan() {
 		var r rec
@@ -127,7 +128,7 @@ func main() {
 			pats = append(pats, render(p))
 		}
 		var (
-			got *schema.Realm
+			got  *schema.Realm
 			gerr error
 		)
 		func() {
@@ -158,9 +159,55 @@ func main() {
 		if len(m.Leaked)+len(m.Lost) > 0 {
 			mism = append(mism, m)
 		}
+		// schema scope (what a connection bound to one schema uses): the patterns taken as table[.child] patterns of schema s must
+		// act like the realm patterns "<s>.<pattern>" on that schema - whatever their first segment spells
+		func() {
+			defer func() {
+				if p := recover(); p != nil {
+					mism = append(mism, mm{Patterns: pats, Err: fmt.Sprintf("schema scope: panic: %v", p)})
+				}
+			}()
+			ra := realm()
+			sname := ra.Schemas[0].Name
+			a, aerr := schema.ExcludeSchema(ra.Schemas[0], pats)
+			var q []string
+			for _, p := range pats {
+				q = append(q, sname+"."+p)
+			}
+			rb, berr := schema.ExcludeRealm(realm(), q)
+			nscope++
+			if (aerr != nil) != (berr != nil) {
+				mism = append(mism, mm{Patterns: pats, Err: fmt.Sprintf("schema scope: ExcludeSchema error %v, realm-scope equivalent error %v", aerr, berr)})
+				return
+			}
+			if aerr != nil {
+				return
+			}
+			pa, pb := present(&schema.Realm{Schemas: []*schema.Schema{a}}), map[string]bool{}
+			for k, v := range present(rb) {
+				if strings.Contains(k, ":"+sname+".") {
+					pb[k] = v
+				}
+			}
+			var diff []string
+			for k := range pa {
+				if !pb[k] {
+					diff = append(diff, "+"+k)
+				}
+			}
+			for k := range pb {
+				if !pa[k] {
+					diff = append(diff, "-"+k)
+				}
+			}
+			if len(diff) > 0 {
+				sort.Strings(diff)
+				mism = append(mism, mm{Patterns: pats, Leaked: diff, Err: "schema scope differs from the realm-scope equivalent"})
+			}
+		}()
 		if n%211 == 5 && len(samp) < 3 {
 			samp = append(samp, map[string]any{"patterns": pats, "absent": len(r.Want.Absent), "present": len(r.Want.Present)})
 		}
 	}
-	json.NewEncoder(os.Stdout).Encode(map[string]any{"cases": n, "mismatches": mism, "samples": samp})
+	json.NewEncoder(os.Stdout).Encode(map[string]any{"cases": n, "schema_scope_cases": nscope, "mismatches": mism, "samples": samp})
 }
